@@ -467,7 +467,16 @@ class Command:
         if not self.has_arguments():
             return False
         if self.iscomplete(atype, avalue):
-            return False
+            # A command without required arguments is complete from the
+            # start: it can still receive its optional (tagged) arguments.
+            if atype != "tag" or self.required_args != 0:
+                return False
+            if not any(
+                "tag" in arg["type"]
+                and self.__is_valid_value_for_arg(arg, avalue, False)
+                for arg in self.args_definition
+            ):
+                return False
 
         if self.curarg is not None and "extra_arg" in self.curarg:
             condition = atype in self.curarg["extra_arg"]["type"] and (
